@@ -217,7 +217,7 @@ protected:
       return (rr=ReportBadFormat(), false);
     }
     if (NLW2_SOLRead_OK != rd.ReadResult()) {
-      serror( rd.ErrorMessage().c_str() );
+      serror( "%s", rd.ErrorMessage().c_str() );
       ReportBadFormat();
       return (rr=rd.ReadResult(), false);
     }
